@@ -414,7 +414,7 @@ func (u *Unit) frameCheckWith(st *State, pos token.Pos, resBinds map[string]Valu
 		if cur == old {
 			continue
 		}
-		if key == "alloc" || strings.HasPrefix(key, "CH:") || key == "G:wg" {
+		if key == "alloc" || strings.HasPrefix(key, "CH:") || key == "G:wg" || key == "G:wgw" {
 			continue
 		}
 		// find matching target
